@@ -218,6 +218,20 @@ func checkC09(c *Ctx, r *Report) {
 			b.Role(less.Params[1], "j")
 			okForm := true
 			form := ""
+			// a comparator that hands its two elements to a function of the repository: key first, tie-break second
+			if rets := Returns(less); len(rets) == 1 {
+				if call, isCall := rets[0].Results[0].(*ssa.Call); isCall {
+					if lf := call.Call.StaticCallee(); lf != nil && c.InRepo(lf) && len(lf.Params) == 2 && len(call.Call.Args) == 2 {
+						ai, aj := b.Of(call.Call.Args[0]).String(), b.Of(call.Call.Args[1]).String()
+						elems := strings.Contains(ai, "$i") && strings.ReplaceAll(ai, "$i", "$j") == aj
+						okLex, why := lexicographicLess(c, lf)
+						r.Analysed["sort comparators"]++
+						r.Check(elems && okLex, "R09d", c.FnName(fn), "comparator", c.Pos(ci.Pos()), lf.Name()+"(x[i], x[j]): "+why,
+							"the comparator "+lf.Name()+" is not a strict order on the keys: "+why)
+						continue
+					}
+				}
+			}
 			for _, ret := range Returns(less) {
 				n := b.Of(ret.Results[0])
 				form = n.String()
@@ -802,6 +816,45 @@ func valueStringRule(c *Ctx, r *Report, rule string) {
 
 // injectiveSortKey: "" if the comparator operand is the slice element itself or mapKeyString of it
 // (whose alternatives are the text of a string key and fmt.Sprint of anything else), otherwise why not.
+// lexicographicLess: lf(a, b) compares a first key and, when that ties, a second one that tells keys of different
+// types apart: `if k1(a) != k1(b) { return k1(a) < k1(b) }; return k2(a) < k2(b)` with k2 built on the key's Type().
+func lexicographicLess(c *Ctx, lf *ssa.Function) (bool, string) {
+	b := newNF(c)
+	b.Role(lf.Params[0], "a")
+	b.Role(lf.Params[1], "b")
+	levels := 0
+	typed := false
+	for _, ret := range Returns(lf) {
+		n := b.Of(ret.Results[0])
+		if n.op != "bin" || n.name != "<" || strings.ReplaceAll(n.args[0].String(), "$a", "$b") != n.args[1].String() || !strings.Contains(n.args[0].String(), "$a") {
+			return false, "a return is not key(a) < key(b) with one key function for both sides: " + clip(n.String(), 160)
+		}
+		levels++
+		if strings.Contains(n.args[0].String(), "Type(") {
+			typed = true
+		}
+	}
+	switch {
+	case levels < 2:
+		return false, "one key only, no tie-break"
+	case !typed:
+		return false, "no level compares the keys' types: keys of different types that spell the same name still tie"
+	}
+	// the first level is returned only when it differs
+	guarded := false
+	for _, ret := range Returns(lf) {
+		for _, cd := range DomConds(ret.Block()) {
+			if bo, ok := cd.V.(*ssa.BinOp); ok && (bo.Op == token.NEQ && cd.Truth || bo.Op == token.EQL && !cd.Truth) {
+				guarded = true
+			}
+		}
+	}
+	if !guarded {
+		return false, "the first key is not tested for a tie"
+	}
+	return true, fmt.Sprintf("%d levels, the last on the key's type", levels)
+}
+
 func injectiveSortKey(n *nf) string {
 	alts := []*nf{n}
 	if n.op == "alt" {
@@ -812,10 +865,11 @@ func injectiveSortKey(n *nf) string {
 		switch {
 		case a.op == "call" && a.name == "index" && len(a.args) == 2 && a.args[1].String() == "$i":
 			// the element itself
-		case strings.HasPrefix(s, "(reflect.Value).String("+modPath+".chaseValueInterfaces(index(") && strings.HasSuffix(s, ", $i)))"):
-			// mapKeyString, string branch
-		case strings.HasPrefix(s, "fmt.Sprint(") && strings.Contains(s, "(reflect.Value).Interface("+modPath+".chaseValueInterfaces(index("):
-			// mapKeyString, fallback branch for keys that are rejected afterwards
+		case strings.HasPrefix(s, "(reflect.Value).String("+modPath+".chaseValueInterfaces(index(") && strings.HasSuffix(s, ", $i)))"),
+			strings.HasPrefix(s, "fmt.Sprint(") && strings.Contains(s, "(reflect.Value).Interface("+modPath+".chaseValueInterfaces(index("):
+			// mapKeyString alone: the text of a key does not tell keys of different types apart — "a" and a named
+			// string type holding "a" are two keys of a map[interface{}]T that compare equal
+			return "the sort key is the text of the map key (mapKeyString) alone: two keys of an interface keyed map that spell the same name tie, and their order is left to the runtime — a tie-break (the key's type) is needed"
 		default:
 			return "the sort key " + clip(s, 120) + " is not the element itself (or its text): different keys can compare equal, and sort.Slice is not stable"
 		}
